@@ -162,6 +162,12 @@ def run_exh(case):
             scores = _SCORE_MAPS[mp](r)
         elif dtype == "float32":
             scores = (r.astype(np.float32) * np.float32(0.25) - np.float32(0.5))
+        elif dtype in ("int8", "int64") and idx % 2:
+            # signed dtypes over their whole range: ranks mapped onto a grid that starts at the dtype's minimum
+            info = np.iinfo(dtype)
+            step = 1 if dtype == "int8" else 3
+            scores = (info.min + r.astype(np.int64) * step).astype(dtype) if dtype == "int8" else \
+                (np.int64(-2**20) + r.astype(np.int64) * step)
         else:
             scores = r.astype(dtype)  # small non-negative integers
         # tie groups for the non-triviality rule
@@ -246,7 +252,7 @@ def _random_vector(rng, regime, n):
 
 
 REGIMES = ["continuous", "few_values", "grid", "negative", "mixed_zero", "subnormal", "sorted_desc",
-           "sorted_asc", "decoy_prefix", "decoy_tie_group", "separated"]
+           "sorted_asc", "decoy_prefix", "decoy_tie_group", "separated", "int_extremes"]
 
 
 def run_random(case):
@@ -264,6 +270,11 @@ def run_random(case):
         enc = ["bool", "int", "float"][rep % 3]
         dt = ["float64", "float64", "float32"][rep % 3] if regime not in ("subnormal", "mixed_zero") else "float64"
         s = s.astype(dt)
+        if regime == "int_extremes":
+            idt = ["int8", "uint8", "int16"][rep % 3]
+            info = np.iinfo(idt)
+            s = rng.choice(np.array([info.min, info.min + 1, -1, 0, 1, info.max - 1, info.max]).clip(info.min, info.max),
+                           size=n).astype(idt)
         q = _check_one(res, tdc, s, _encode_targets(t, enc), desc, extra={"regime": regime})
         evals += 1
         if t.any() and not t.all() and len(np.unique(s)) >= 2:
